@@ -17,3 +17,45 @@ Lemma sig_params_tied :
   gen_default_uid = default_uid /\ gen_uid_limit = 8192 /\ gen_C1C3C2 = 0 /\ gen_C1C2C3 = 1 /\
   gen_decrypt_min = Z.of_nat (1 + 64 + 32 + 1).
 Proof. repeat split; reflexivity. Qed.
+
+(* Byte layout of the ciphertext and of the padded coordinates, as a fingerprint of the source: every slice
+   bound, index offset, compared width, byte literal and subtracted constant of Encrypt, Decrypt, CipherMarshal,
+   CipherUnmarshal, ZA and keCoordBytes, in source order (-1 = bound absent or not constant).  The model
+   (SM2/SM2Model.v) writes the same layout: prefix byte 4; coordinates padded to 32 bytes with
+   zeroByteSlice()[:32-n]; C1 at offsets 1..33..65 of the ciphertext (0..32..64 after the prefix is dropped),
+   C3 at 64..96, C2 from 96; minimal length 1+64+32+1.  An edit of the layout changes these lists. *)
+Definition layout_statement : Prop :=
+  gen_Encrypt_slices = [(-1); (-1); (-1); (-1); (-1); (-1); (-1); (-1); (-1); 64; 64; 96; 96; (-1)] /\
+  gen_Encrypt_offsets = [96] /\
+  gen_Encrypt_widths = [32; 32; 32; 32] /\
+  gen_Encrypt_bytes = [4; 4; 4] /\
+  gen_Encrypt_subs = [32; 32; 32; 32; 96] /\
+  gen_Decrypt_slices = [1; (-1); 1; (-1); (-1); 64; 64; (-1); (-1); (-1); 1; (-1); (-1); 32; 32; 64; (-1); (-1); (-1); (-1); 64; 96] /\
+  gen_Decrypt_offsets = [0; 96] /\
+  gen_Decrypt_widths = [4; 32; 32; 0] /\
+  gen_Decrypt_bytes = [] /\
+  gen_Decrypt_subs = [96; 32; 32; 96; 32; 32] /\
+  gen_CipherMarshal_slices = [1; (-1); (-1); 32; 32; 64; 64; 96; 96; (-1)] /\
+  gen_CipherMarshal_offsets = [] /\
+  gen_CipherMarshal_widths = [] /\
+  gen_CipherMarshal_bytes = [] /\
+  gen_CipherMarshal_subs = [] /\
+  gen_CipherUnmarshal_slices = [(-1); (-1); (-1); (-1)] /\
+  gen_CipherUnmarshal_offsets = [] /\
+  gen_CipherUnmarshal_widths = [0; 0; 32; 32; 32; 32; 32] /\
+  gen_CipherUnmarshal_bytes = [4] /\
+  gen_CipherUnmarshal_subs = [32; 32] /\
+  gen_ZA_slices = [(-1); (-1); (-1); (-1); (-1); 32] /\
+  gen_ZA_offsets = [] /\
+  gen_ZA_widths = [0; 32; 32] /\
+  gen_ZA_bytes = [] /\
+  gen_ZA_subs = [32; 32] /\
+  gen_keCoordBytes_slices = [(-1); (-1)] /\
+  gen_keCoordBytes_offsets = [] /\
+  gen_keCoordBytes_widths = [32] /\
+  gen_keCoordBytes_bytes = [] /\
+  gen_keCoordBytes_subs = [32] /\
+  gen_zeroByteSlice = repeat 0%N 32.
+
+Lemma layout_tied : layout_statement.
+Proof. unfold layout_statement. repeat split; reflexivity. Qed.
